@@ -16,10 +16,10 @@ from latcfg import rat, frac
 KDEN, XDEN, ODEN = 16, 16, 2 ** 14
 
 
-def make_layer(tfl, c, units, dtype="float32"):
+def make_layer(tfl, c, units, dtype="float32", shift=0.0):
   n = len(c["mono"])
-  lo = [float(frac(c["lo"][i])) if c["hasLo"][i] else None for i in range(n)]
-  hi = [float(frac(c["hi"][i])) if c["hasHi"][i] else None for i in range(n)]
+  lo = [float(frac(c["lo"][i])) + shift if c["hasLo"][i] else None for i in range(n)]
+  hi = [float(frac(c["hi"][i])) + shift if c["hasHi"][i] else None for i in range(n)]
   layer = tfl.layers.Linear(num_input_dims=n, units=units, use_bias=c["useBias"],
                             input_min=lo if any(v is not None for v in lo) else None,
                             input_max=hi if any(v is not None for v in hi) else None,
@@ -28,11 +28,19 @@ def make_layer(tfl, c, units, dtype="float32"):
   return layer
 
 
-def evaluate(tf, tfl, c, K, B, X, dtype="float32", graph=False):
+def evaluate(tf, tfl, c, K, B, X, dtype="float32", graph=False, shift=0.0):
+  """shift (float64 layers only): bounds and inputs translated by a number that float32 cannot carry next to the bounds;
+  the result is translated back (clipping commutes with translation: out(x + s) = out(x) + s * sum(kernel))."""
+  return _evaluate(tf, tfl, c, K, B, X, dtype, graph, shift)
+
+
+def _evaluate(tf, tfl, c, K, B, X, dtype, graph, shift):
   """K: (n, units), B: (units,), X: (batch, n) -> (batch, units)."""
   units = K.shape[1]
   ft = np.float32 if dtype == "float32" else np.float64
-  layer = make_layer(tfl, c, units, dtype)
+  layer = make_layer(tfl, c, units, dtype, shift)
+  X = X.astype(np.float64) + shift
+  back = shift * K.astype(np.float64).sum(axis=0)[None, :]
   layer.kernel.assign(K.astype(ft))
   if c["useBias"]:
     layer.bias.assign(ft(B[0]) if units == 1 else B.astype(ft))
@@ -41,9 +49,9 @@ def evaluate(tf, tfl, c, K, B, X, dtype="float32", graph=False):
     spec = tf.TensorSpec([None, X.shape[1]] if units == 1 else [None, units, X.shape[1]], tf.as_dtype(ft))
     fn = tf.function(lambda z: layer(z), input_signature=[spec])
   if units == 1:
-    return fn(tf.constant(X.astype(ft))).numpy().reshape(len(X), 1)
+    return fn(tf.constant(X.astype(ft))).numpy().reshape(len(X), 1) - back
   Xu = np.repeat(X[:, None, :], units, axis=1)
-  return fn(tf.constant(Xu.astype(ft))).numpy()
+  return fn(tf.constant(Xu.astype(ft))).numpy() - back
 
 
 def events_for(c, K, B, X, out, ctx, path):
@@ -114,8 +122,13 @@ def run(ctx):
       if hasLo[i]:
         X[3, i] = -float(2 ** 20 if j % 2 else 2 ** 26)
     # every fourth layer computes in float64
-    out = evaluate(tf, tfl, c, K, B, X, dtype="float64" if j % 4 == 3 else "float32", graph=bool(j % 3 == 1))
-    events += events_for(c, K, B, X, out, ctx, "random64" if j % 4 == 3 else "random")
+    f64 = j % 4 == 3
+    # half of the float64 layers work at 2^30 (float32 spacing 128 there: bounds like 2^30 + 0.25 need float64)
+    shift = float(2 ** 30) if f64 and j % 8 == 7 else 0.0
+    if shift:
+      X = np.clip(X, -8.0, 8.0)      # the far-out probes stay with the unshifted layers
+    out = evaluate(tf, tfl, c, K, B, X, dtype="float64" if f64 else "float32", graph=bool(j % 3 == 1), shift=shift)
+    events += events_for(c, K, B, X, out, ctx, ("random64s" if shift else "random64") if f64 else "random")
     ctx.nontrivial.add((json.dumps(c, sort_keys=True)))
   ctx.validate("TraceLinearLayer", events)
   return ctx.finish()
@@ -132,7 +145,8 @@ def replay(ctx, path):
     K = np.array(call["k"], dtype=np.float32).reshape(-1, 1)
     B = np.array([call["b"]], dtype=np.float32)
     X = np.array([call["x"]], dtype=np.float32)
-    out = evaluate(tf, tfl, c, K, B, X, dtype="float64" if call.get("path") == "random64" else "float32")
+    out = evaluate(tf, tfl, c, K, B, X, dtype="float64" if str(call.get("path", "")).startswith("random64") else "float32",
+                   shift=float(2 ** 30) if call.get("path") == "random64s" else 0.0)
     log("replay cfg=%s k=%s b=%s x=%s -> %s" % (c, call["k"], call["b"], call["x"], out.tolist()))
     events += events_for(c, K, B, X, out, ctx, "replay")
   ctx.validate("TraceLinearLayer", events, shards=1)
